@@ -155,11 +155,95 @@ def real_chain_run(name, T, beta, peaked, start_where, nsteps, rng):
     return None, worst
 
 
+def jump_with_budget(prop, start, budget=BUDGET):
+    """one prop.jump(start) with at most `budget` generator draws; returns (point or None, draws)"""
+    with GenTap() as gt:
+        def guard(owner, mname, a, k, real):
+            if len(gt.log) > budget:
+                raise TimeoutError('more than %d generator draws for one proposal' % budget)
+            return real(*a, **k)
+        gt.script = guard
+        try:
+            x = prop.jump(dict(start))
+            return x, len(gt.log)
+        except TimeoutError:
+            return None, len(gt.log)
+
+
+def degenerate_direction(prop, start):
+    """the eigenvector chosen by the stalled jump leaves the domain in both directions from `start`
+    (the admissible segment is the single point `start`, widened only by the face tolerance of __contains__)"""
+    v = numpy.asarray(prop.eigvects)[:, prop._ind]
+    width = min(abs(float(prop.boundaries[p][1]) - float(prop.boundaries[p][0])) for p in prop.parameters)
+    for eps in (1e-3 * width, 1e-2 * width):        # beyond the numpy.isclose tolerance that __contains__ grants at the faces
+        for sgn in (1.0, -1.0):
+            pt = {p: float(start[p]) + sgn * eps * float(v[i]) for i, p in enumerate(prop.parameters)}
+            if pt in prop:
+                return False
+    return True
+
+
+def rotated_cov(rng, angle=None, s1=None, s2=None):
+    th = rng.uniform(0.0, math.pi) if angle is None else angle
+    s1 = rng.choice([0.05, 0.3, 1.0, 2.0]) if s1 is None else s1
+    s2 = rng.choice([0.05, 0.3, 1.0, 2.0]) if s2 is None else s2
+    r = numpy.array([[math.cos(th), -math.sin(th)], [math.sin(th), math.cos(th)]])
+    c = r @ numpy.diag([s1, s2]) @ r.T
+    return (c + c.T) / 2
+
+
+def boundary_jumps(out, rng, thorough):
+    """(c) bounded eigenvector proposals (fixed and adaptive, rotated covariances) jumping from corners, edges, faces and
+    the centre of their box: every jump must finish within the draw budget"""
+    lo, hi = {p: adapt.BND2[p][0] for p in 'ab'}, {p: adapt.BND2[p][1] for p in 'ab'}
+    mid = {p: (lo[p] + hi[p]) / 2 for p in 'ab'}
+    points = [('centre', dict(mid))]
+    for ca in ('lo', 'hi'):
+        for cb in ('lo', 'hi'):
+            points.append(('corner', dict(a=lo['a'] if ca == 'lo' else hi['a'], b=lo['b'] if cb == 'lo' else hi['b'])))
+    for p_, q_ in (('a', 'b'), ('b', 'a')):
+        for side in (lo, hi):
+            pt = dict(mid)
+            pt[p_] = side[p_]
+            points.append(('edge', pt))
+    known_open = any(h['flag'] == 'bounded_eigenvector_corner_stall' for h in out.known_hits)
+    for rep in range(12 if thorough else 4):
+        cov = rotated_cov(rng)
+        for adaptive in (False, True):
+            prop = (P.AdaptiveBoundedEigenvector(['a', 'b'], adapt.BND2, adaptation_duration=50, cov0=cov) if adaptive
+                    else P.BoundedEigenvector(['a', 'b'], adapt.BND2, cov=cov))
+            prop.bit_generator = rng.randrange(1, 10 ** 6)
+            for kind, pt in points:
+                for _ in range(6 if thorough else 3):
+                    x, n = jump_with_budget(prop, pt)
+                    out.evaluations += 1
+                    out.count('boundary_jump_from_' + kind)
+                    if x is not None:
+                        continue
+                    desc = dict(proposal=type(prop).__name__, cov=[[float(v) for v in r] for r in cov], start=pt, where=kind,
+                                eigenvector=[float(v) for v in numpy.asarray(prop.eigvects)[:, prop._ind]])
+                    if degenerate_direction(prop, pt):
+                        if known_open:
+                            out.count('covered_by_known_bounded_eigenvector_corner_stall')
+                            break
+                        out.violations.append(dict(what='%s: a jump from the %s %s along the eigenvector %s, which leaves the domain in both '
+                                                        'directions, did not finish within %d draws' % (desc['proposal'], kind, pt, desc['eigenvector'], BUDGET),
+                                                   replay=desc))
+                    else:
+                        out.violations.append(dict(what='%s: a jump from the %s %s did not finish within %d draws (eigenvector %s, scale %r)'
+                                                        % (desc['proposal'], kind, pt, BUDGET, desc['eigenvector'], float(prop.eigvals[prop._ind])),
+                                                   replay=desc))
+                    break
+            if len(out.violations) > 6:
+                return
+
+
 KNOWN = {
     # flag -> (families, failure kinds)
     'at_bounded_runaway': (('at_adaptive_bounded_normal', 'at_adaptive_angular', 'adaptive_bounded_eigenvector'), ('stall',)),
     'solid_angle_kappa_overflow': (('adaptive_isotropic_solid_angle',), ('raise', 'inadmissible')),
     'solid_angle_kappa_underflow': (('adaptive_isotropic_solid_angle',), ('nan_position', 'raise_nan')),
+    'bounded_eigenvector_corner_stall': (('bounded_eigenvector', 'adaptive_bounded_eigenvector'), ('stall',)),
 }
 
 
@@ -210,6 +294,23 @@ def witnesses(out):
     if confirmed:
         out.known_hits.append(dict(flag='at_bounded_runaway', what='Robbins-Monro scaled bounded/angular proposals under sustained acceptance stall',
                                    witness=dict(history='always x1500, adaptation_duration 3000', observed=confirmed)))
+    # D33: a bounded eigenvector jump from a corner along an eigenvector that leaves the box in both directions
+    stalls = []
+    for cls, kw in ((P.BoundedEigenvector, dict(cov=numpy.array([[1.0, 0.9], [0.9, 1.0]]))),
+                    (P.AdaptiveBoundedEigenvector, dict(adaptation_duration=50, cov0=numpy.array([[1.0, 0.9], [0.9, 1.0]])))):
+        prop = cls(['a', 'b'], adapt.BND2, **kw)
+        prop.bit_generator = 12345
+        corner = {'a': adapt.BND2['a'][0], 'b': adapt.BND2['b'][1]}
+        for _ in range(12):
+            x, n = jump_with_budget(prop, corner)
+            if x is None and degenerate_direction(prop, corner):
+                stalls.append('%s from %s along %s' % (cls.__name__, corner, [round(float(v), 4) for v in numpy.asarray(prop.eigvects)[:, prop._ind]]))
+                break
+    out.variant['bounded_eigenvector_corner_stall'] = not stalls
+    if stalls:
+        out.known_hits.append(dict(flag='bounded_eigenvector_corner_stall',
+                                   what='bounded eigenvector jump from a corner along an eigenvector that leaves the box in both directions exceeds the draw budget',
+                                   witness=dict(boundaries=adapt.BND2, cov=[[1.0, 0.9], [0.9, 1.0]], observed=stalls)))
     # kappa underflow: always accepted, long duration -> kappa tiny -> NaN proposals
     prop = adapt.drive('adaptive_isotropic_solid_angle', 20000, 1, 1, adapt.history('always', 2500, rng), rng, lambda *a: None)
     nan = None
@@ -353,6 +454,7 @@ def run(seed, tier):
                                                        % (name, desc['target'], beta, where, prob[1]), replay=desc))
         if len(out.violations) > 6:
             break
+    boundary_jumps(out, rng, thorough)
     failing = core.run_coq_cases('C14', adapt.HEADER, terms, per_file=1500)
     for f in failing[:10]:
         out.corr_failures.append(dict(note='adaptation model and real _update disagree', case=meta[f[0]]))
